@@ -257,6 +257,79 @@ def explore(ctx):
         ctx.sample({"filter": meta[0]["filter"], "kwargs": meta[0]["kwargs"]})
     ifilters(ctx)
     converted_filters_section(ctx)
+    merge_level(ctx)
+
+
+def merge_level(ctx):
+    """Filters/FilterMerge.v against BaseInterpolatablePreProcessor._try_as_interpolatable_filter on random slots: filter
+    objects of four classes (three with an interpolatable form, one without), differing options / pre / include / exclude
+    lists, and None where a master lists fewer filters -- merged or not, and which glyphs the merged filter includes"""
+    from types import SimpleNamespace
+    from ufo2ft.preProcessor import BaseInterpolatablePreProcessor
+    from ufo2ft.filters.flattenComponents import FlattenComponentsFilter
+    from ufo2ft.filters.propagateAnchors import PropagateAnchorsFilter
+    from ufo2ft.filters.skipExportGlyphs import SkipExportGlyphsFilter
+    from ufo2ft.filters.sortContours import SortContoursFilter
+    rng = ctx.subrng("merge")
+    NAMES = ["a", "b", "c", "d"]
+    CLASSES = [(1, FlattenComponentsFilter, True), (2, PropagateAnchorsFilter, True), (3, SkipExportGlyphsFilter, True), (4, SortContoursFilter, False)]
+    cases, meta = [], []
+    for i in range(ctx.budget(80, 500)):
+        n = rng.randint(1, 4)
+        same = rng.random() < 0.7
+        c0 = rng.choice(CLASSES)
+        slot, terms, desc = [], [], []
+        for k in range(n):
+            if rng.random() < 0.25 and (k > 0 or i % 2):
+                slot.append(None); terms.append("(@None pfilter)"); desc.append(None)
+                continue
+            code, cls, _ = c0 if same else rng.choice(CLASSES)
+            opt = 0
+            args = ()
+            if cls is SkipExportGlyphsFilter:
+                opt = 0 if same or rng.random() < 0.7 else 1
+                args = ([["zz"], ["yy"]][opt],)
+            pre = True if same or rng.random() < 0.7 else False
+            kind = rng.choice(["all", "include", "exclude"])
+            sub = [x for x in NAMES if rng.random() < 0.5]
+            kw = {"pre": pre}
+            if kind == "include":
+                kw["include"] = list(sub); spec = "(IncNames %s)" % G.lst([G.s(x) for x in sub], "str")
+            elif kind == "exclude":
+                kw["exclude"] = list(sub); spec = "(ExcNames %s)" % G.lst([G.s(x) for x in sub], "str")
+            else:
+                spec = "IncAll"
+            slot.append(cls(*args, **kw))
+            terms.append("(Some (mkPF %s %s %s %s))" % (G.z(code), G.z(opt), G.b(pre), spec))
+            desc.append({"class": cls.__name__, "options": opt, "pre": pre, kind: sub})
+        if all(x is None for x in slot):
+            continue
+        case = {"slot": desc}
+        ctx.count(); ctx.klass("merge: %d entries%s" % (n, ", one missing" if None in slot else ""))
+        try:
+            got = BaseInterpolatablePreProcessor._try_as_interpolatable_filter(list(slot))
+            if got is None:
+                obs = "(@None (Z * bool * list bool))"
+            else:
+                code = next(c for c, cls, _ in CLASSES if type(got).__name__.startswith(cls.__name__.replace("Filter", "")))
+                obs = "(Some (%s, %s, %s))" % (G.z(code), G.b(bool(got.pre)), G.lst([G.b(bool(got.include(SimpleNamespace(name=x)))) for x in NAMES], "bool"))
+        except Exception as e:
+            ctx.spec_failure(case, "_try_as_interpolatable_filter raised %s: %s" % (type(e).__name__, e))
+            continue
+        if None in slot or len({repr(d) for d in desc if d}) > 1:
+            ctx.nontriv(("merge", i, ctx.scale))
+        cases.append("(%s, %s)" % (G.lst(terms, "(option pfilter)"), obs))
+        meta.append(dict(case, merged=None if got is None else type(got).__name__))
+    vals = ctx.coq_eval("From U2F Require Import Base.Prelude Filters.FilterMerge.",
+                        "fun c : (list (option pfilter) * option (Z * bool * list bool)) => let '(fs, obs) := c in "
+                        "let names := [[97]; [98]; [99]; [100]]%%Z in "
+                        "match try_merge (fun k => negb (Z.eqb k 4)) fs, obs with "
+                        "| None, None => 3 | Some m, Some (k, p, bits) => if Z.eqb (m_class m) k && Bool.eqb (m_pre m) p && "
+                        "list_eqb Bool.eqb (map (merged_includes m) names) bits then 3 else 2 | _, _ => 2 end".replace("%%", "%"),
+                        cases, chunk=100, tag="Merge")
+    for v, case in zip(vals, meta):
+        if v is not None and v != 3:
+            ctx.corr_mismatch(case, "Gallina try_merge (Filters/FilterMerge.v) differs from _try_as_interpolatable_filter")
 
 
 def converted_filters_section(ctx):
